@@ -105,6 +105,18 @@ func (p *Prog) Run(bs map[string]interface{}) Outcome {
 			if v, have := cur[op.K]; have {
 				cur[op.Keys[0]] = jsongen.Copy(v)
 			}
+		case "elemSet":
+			// in ECMAScript this writes into the first element of an
+			// array of objects in place
+			if a, ok := cur[op.K].([]interface{}); ok && len(a) > 0 {
+				if m, ok := a[0].(map[string]interface{}); ok {
+					na := append([]interface{}{}, a...)
+					nm := jsongen.CopyMap(m)
+					nm[op.Keys[0]] = jsongen.Copy(op.V)
+					na[0] = nm
+					cur[op.K] = na
+				}
+			}
 		case "nestSet":
 			// in ECMAScript this writes into the nested object in place
 			if m, ok := cur[op.K].(map[string]interface{}); ok {
@@ -200,6 +212,8 @@ func (p *Prog) ES() string {
 			fmt.Fprintf(&sb, "if (bs[%s] !== undefined) { bs[%s] = JSON.parse(JSON.stringify(bs[%s])); }\n", k, js(op.Keys[0]), k)
 		case "nestSet":
 			fmt.Fprintf(&sb, "if (bs[%s] !== null && typeof bs[%s] === 'object' && !Array.isArray(bs[%s])) { bs[%s][%s] = %s; }\n", k, k, k, k, js(op.Keys[0]), js(op.V))
+		case "elemSet":
+			fmt.Fprintf(&sb, "if (Array.isArray(bs[%s]) && bs[%s].length > 0 && bs[%s][0] !== null && typeof bs[%s][0] === 'object' && !Array.isArray(bs[%s][0])) { bs[%s][0][%s] = %s; }\n", k, k, k, k, k, k, js(op.Keys[0]), js(op.V))
 		case "emit":
 			fmt.Fprintf(&sb, "_.out(%s);\n", js(op.V))
 		case "emitOf":
@@ -340,7 +354,7 @@ func GenProg(t *rapid.T, o ProgOpts, label string) *Prog {
 	p := &Prog{}
 	for i := 0; i < n; i++ {
 		l := fmt.Sprintf("%s.%d", label, i)
-		kinds := []string{"set", "set", "del", "inc", "push", "keep", "fresh", "copy", "nestSet"}
+		kinds := []string{"set", "set", "del", "inc", "push", "keep", "fresh", "copy", "nestSet", "elemSet"}
 		if o.Emit {
 			kinds = append(kinds, "emit", "emit", "emitOf")
 		}
@@ -358,7 +372,7 @@ func GenProg(t *rapid.T, o ProgOpts, label string) *Prog {
 			p.Ops = append(p.Ops, Op{Op: kind, K: k})
 		case "copy":
 			p.Ops = append(p.Ops, Op{Op: kind, K: k, Keys: []string{rapid.SampledFrom(keys).Draw(t, l+".k2")}})
-		case "nestSet":
+		case "nestSet", "elemSet":
 			p.Ops = append(p.Ops, Op{Op: kind, K: k, Keys: []string{rapid.SampledFrom([]string{"a", "b", "n"}).Draw(t, l+".nk")}, V: jsongen.Scalar(t, vo, l+".nv")})
 		case "keep":
 			nk := rapid.IntRange(0, 3).Draw(t, l+".nk")
